@@ -2,6 +2,8 @@
 //!
 //! * `Args` / `Run`: command line, wall clock, evidence file, violation reporting with the
 //!   known-findings filter, replay files.
+//! * `hang`: calls into the code under test that do not return, for engines that make millions of cheap
+//!   calls (per-thread heartbeat slots, an observer thread, the stuck call handed back to the engine).
 //! * `explore`: level-synchronous, parallel, explicit-state breadth-first search over the states of the
 //!   REAL implementation (the system's `step` calls the code under test and compares it with a
 //!   reference model in lockstep).  Keys are full canonical byte strings, not lossy hashes.
@@ -11,6 +13,7 @@
 //! 2 = machinery problem (never a verdict).
 
 pub mod explore;
+pub mod hang;
 pub mod run;
 
 pub use explore::{explore, replay_history, ExploreCfg, ExploreResult, Found, System};
